@@ -124,6 +124,10 @@ def check_C01(tier, seed):
     chosen = sample(vecs, n_vec, r)
     scripts = [scen.streamdata_script(r, i, fate_vec=v) for i, v in enumerate(chosen)]
     scripts += [scen.streamdata_script(r, i) for i in range(n_rand)]
+    # "any ack-frequency configuration": the rhythm is renegotiated while data flows and datagrams overtake each other
+    scripts += [scen.streamdata_ackfreq(r, len(scripts) + i) for i in range(300 if quick else 4000)]
+    # "whatever else happens on the connection": data written before the handshake completes (0-RTT, Retry)
+    scripts += [scen.streamdata_zerortt(r, len(scripts) + i) for i in range(200 if quick else 3000)]
     # which stream's data goes first (priorities, round robin): extension, see DESIGN 0.8; the operation
     # orders are enumerated by TLC, each is played three times on top of a random backlog
     seqs, gst3 = V.gen("SeqGen.tla", "SeqGen_sched5.cfg" if quick else "SeqGen_sched6.cfg", "C01s")
